@@ -281,6 +281,37 @@ pub fn run(scenario: &str, input: &Value) -> Option<(bool, Value)> {
             };
             Some(r)
         }
+        // C20: from_term of the Elixir calendar wrappers never fabricates a field: a field value outside the target type's
+        // range is a rejection (None), and an accepted term gives back exactly the field values it carried
+        "elixir_from_term" => {
+            use erltf::OwnedTerm as T;
+            use erltf::types::Atom;
+            let a = |s: &str| T::Atom(Atom::new(s));
+            let kind = input["kind"].as_str().unwrap();
+            let f = |k: &str| i(&input[k]);
+            let mut m = std::collections::BTreeMap::new();
+            let module = match kind { "date" => "Elixir.Date", "time" => "Elixir.Time", _ => return None };
+            m.insert(a("__struct__"), a(module));
+            m.insert(a("calendar"), a("Elixir.Calendar.ISO"));
+            let res: (bool, Value) = match kind {
+                "date" => {
+                    for k in ["year", "month", "day"] { m.insert(a(k), T::Integer(f(k))); }
+                    let r = edp_elixir_terms::ElixirDate::from_term(&T::Map(m));
+                    let fits = i32::try_from(f("year")).is_ok() && u8::try_from(f("month")).is_ok() && u8::try_from(f("day")).is_ok();
+                    let ok = match &r { None => !fits || true, Some(d) => fits && d.year as i64 == f("year") && d.month as i64 == f("month") && d.day as i64 == f("day") };
+                    (ok, json!(format!("{:?}", r)))
+                }
+                _ => {
+                    for k in ["hour", "minute", "second"] { m.insert(a(k), T::Integer(f(k))); }
+                    m.insert(a("microsecond"), T::Tuple(vec![T::Integer(f("us")), T::Integer(f("precision"))]));
+                    let r = edp_elixir_terms::ElixirTime::from_term(&T::Map(m));
+                    let fits = u8::try_from(f("hour")).is_ok() && u8::try_from(f("minute")).is_ok() && u8::try_from(f("second")).is_ok() && u32::try_from(f("us")).is_ok() && u8::try_from(f("precision")).is_ok();
+                    let ok = match &r { None => true, Some(t) => fits && t.hour as i64 == f("hour") && t.minute as i64 == f("minute") && t.second as i64 == f("second") && t.microsecond_value as i64 == f("us") && t.microsecond_precision as i64 == f("precision") };
+                    (ok, json!(format!("{:?}", r)))
+                }
+            };
+            Some(res)
+        }
         // C15: a big integer of n <= 8 little-endian digits (what the wire delivers for wide integers) is read by the
         // integer deserializers as exactly its value, or rejected when it does not fit
         "serde_bigint_read" => {
@@ -506,6 +537,18 @@ fn gen_bytes(input: &Value) -> Vec<u8> {
             v
         }
         // COMPRESSED term declaring `declared` bytes whose zlib stream inflates to `actual` zero bytes of a BINARY_EXT
+        // 131 80 <len> zlib(inner): `inner` given literally
+        "compressed" => {
+            use std::io::Write;
+            let inner: Vec<u8> = input["inner"].as_array().unwrap().iter().map(|x| x.as_u64().unwrap() as u8).collect();
+            let mut e = flate2::write::ZlibEncoder::new(Vec::new(), flate2::Compression::best());
+            e.write_all(&inner).unwrap();
+            let z = e.finish().unwrap();
+            let mut v = vec![131u8, 80];
+            v.extend_from_slice(&(inner.len() as u32).to_be_bytes());
+            v.extend_from_slice(&z);
+            v
+        }
         "zip_bomb" => {
             use std::io::Write;
             let declared = input["declared"].as_u64().unwrap() as u32;
